@@ -144,11 +144,16 @@ func PEMCert(der []byte) []byte { return pem.EncodeToMemory(&pem.Block{Type: "CE
 
 // SignJWT creates a compact JWS with the given claims.
 func SignJWT(key crypto.Signer, kid string, claims map[string]any) string {
+	return SignJWTAlg(key, kid, AlgFor(key), claims)
+}
+
+// SignJWTAlg is SignJWT with the algorithm named (RS256 yields the same bytes for the same input).
+func SignJWTAlg(key crypto.Signer, kid string, alg jose.SignatureAlgorithm, claims map[string]any) string {
 	opts := (&jose.SignerOptions{}).WithType("JWT")
 	if kid != "" {
 		opts = opts.WithHeader("kid", kid)
 	}
-	sig, err := jose.NewSigner(jose.SigningKey{Algorithm: AlgFor(key), Key: key}, opts)
+	sig, err := jose.NewSigner(jose.SigningKey{Algorithm: alg, Key: key}, opts)
 	if err != nil {
 		panic(err)
 	}
